@@ -860,6 +860,14 @@ impl<'a> Gen<'a> {
                         }
                     }
                 }
+                // edge-case role keys: empty, reserved prefix only, reserved names
+                if self.rng.chance(1, 5) {
+                    if let Some(ri) = names.iter().position(|n| n.contains("role_key")) {
+                        if let Some(MV::String { .. }) = fields.get(ri) {
+                            fields[ri] = MV::String { value: (*self.rng.pick(&["", "_", "_owner_", "_self_", "__"])).to_string() };
+                        }
+                    }
+                }
                 // wrong arity, rarely
                 if !in_collection && self.rarely_invalid(200) {
                     if self.rng.bool() {
